@@ -196,6 +196,7 @@ pub(crate) fn eval_with_instructions(
         let result = match command_result {
             CommandResult::GoTo(output, GoToValue::Line(line_number)) => {
                 // a function call, keep running from the requested line until it returns
+                // (an error inside the function is handled as in any other call: the script goes on)
                 let (flow_result, flow_output) = eval_instructions_with_output(
                     instructions,
                     commands,
@@ -204,6 +205,7 @@ pub(crate) fn eval_with_instructions(
                     env,
                     line_number,
                     output,
+                    true,
                 );
 
                 match flow_result {
@@ -240,7 +242,44 @@ pub(crate) fn eval_instructions(
         env,
         start_line,
         None,
+        false,
     )
+}
+
+fn run_on_error(
+    error: String,
+    instruction: &Instruction,
+    instructions: &Vec<Instruction>,
+    commands: &mut Commands,
+    state: &mut HashMap<String, StateValue>,
+    variables: &mut HashMap<String, String>,
+    env: &mut Env,
+) -> Result<(), String> {
+    match commands.get_for_use("on_error") {
+        Some(command_instance) => {
+            let meta_info = instruction.meta_info.clone();
+
+            match command_instance.run(CommandInvocationContext {
+                arguments: vec![
+                    error,
+                    meta_info.line.unwrap_or(0).to_string(),
+                    meta_info.source.unwrap_or("".to_string()),
+                ],
+                state,
+                variables,
+                output_variable: None,
+                instructions,
+                commands,
+                line: 0,
+                env,
+            }) {
+                CommandResult::Exit(_) => Err("Exiting Script.".to_string()),
+                CommandResult::Crash(error) => Err(error),
+                _ => Ok(()),
+            }
+        }
+        None => Ok(()),
+    }
 }
 
 fn eval_instructions_with_output(
@@ -251,6 +290,7 @@ fn eval_instructions_with_output(
     env: &mut Env,
     start_line: usize,
     start_output: Option<String>,
+    continue_on_error: bool,
 ) -> (Option<CommandResult>, Option<String>) {
     let mut line = start_line;
     let mut flow_output = start_output;
@@ -280,8 +320,31 @@ fn eval_instructions_with_output(
                         break;
                     }
                     CommandResult::Error(error) => {
-                        flow_result = Some(CommandResult::Error(error));
-                        break;
+                        if continue_on_error {
+                            // same as the runner: the output turns false, on_error is told, the flow goes on
+                            if let Some(ref output_variable) = script_instruction.output {
+                                variables.insert(output_variable.to_string(), "false".to_string());
+                            }
+
+                            match run_on_error(
+                                error,
+                                &instruction,
+                                instructions,
+                                commands,
+                                state,
+                                variables,
+                                env,
+                            ) {
+                                Ok(_) => line = line + 1,
+                                Err(error) => {
+                                    flow_result = Some(CommandResult::Crash(error));
+                                    break;
+                                }
+                            }
+                        } else {
+                            flow_result = Some(CommandResult::Error(error));
+                            break;
+                        }
                     }
                     CommandResult::Crash(error) => {
                         flow_result = Some(CommandResult::Crash(error));
